@@ -6,15 +6,15 @@ def main():
     ctx = Ctx("C12", "exploration")
     ctx.rule = ("TLC enumerates every signature with 1..3 parameters of which a suffix has defaults, and every well-formed call "
                 "shape: number of positional arguments, set of keyword arguments, which of the passed arguments are query "
-                "variables (253 shapes), with Python's binding, the mode (symbolic iff a variable is passed), the expected calls "
+                "variables (253 shapes; 22 more concrete calls of positional-only and var-positional signatures), with Python's binding, the mode (symbolic iff a variable is passed), the expected calls "
                 "of the body and the expected solutions. Each shape is replayed on a generated @symbolic_function and a generated "
-                "Predicate subclass with a call log. Non-trivial = a shape with at least one variable or one keyword/default; "
+                "Predicate subclass with a call log, as the only condition and as a later condition (every variable already bound); variables range over 0..2. Non-trivial = a shape with at least one variable or one keyword/default; "
                 "distinct by (signature, shape, kind).")
     ctx.run_tlc("CallShape", "CallShape_mc.cfg", expect="ok")
     ctx.run_tlc("CallShape", "CallShape_sw_OffByOne.cfg", expect="violation")
     shapes = [j for j in ctx.run_tlc("CallShape", "CallShape_gen.cfg", expect="ok").json_lines() if isinstance(j, dict) and "exp" in j]
-    if len(shapes) != 253:
-        raise MachineryError(f"expected 253 call shapes, got {len(shapes)}")
+    if len(shapes) != 275:
+        raise MachineryError(f"expected 275 call shapes, got {len(shapes)}")
     results = replay("callshape", shapes)
     ctx.replayed = sum(len(r) for r in results)
     for c, r in zip(shapes, results):
@@ -22,11 +22,11 @@ def main():
         vs = sorted(c["vars"])
         exp_sols = sorted([g[str(i)] for i in vs] if isinstance(g, dict) else list(g) for g in e["solutions"]) if e["symbolic"] else None
         exp_calls = sorted(list(x["a"]) for x in e["calls_at_evaluation"]) if e["symbolic"] else None
-        for kind in ("function", "predicate", "function_int", "predicate_derived"):
+        for kind in ("function", "predicate", "function_int", "predicate_derived", "function_after_binding", "predicate_after_binding"):
             if kind not in r:
                 continue
             o = r[kind]
-            key = [c["n"], c["ndef"], c["np"], c["kw"], c["vars"], kind]
+            key = [c["n"], c["ndef"], c["np"], c["kw"], c["vars"], kind] + ([c["style"]] if c["style"] != "plain" else [])
             ctx.case(key, bool(c["vars"]) or bool(c["kw"]) or c["ndef"] > 0,
                      sample={"signature": f"{c['n']} params, {c['ndef']} defaults", "positional": c["np"], "keywords": c["kw"],
                              "variables": c["vars"], "kind": kind, "observed": o})
@@ -52,5 +52,5 @@ def main():
                 ctx.violation({"shape": key, "expected": {"symbolic": e["symbolic"], "solutions": exp_sols}, "observed": o, "problems": problems},
                               note="call did not bind / run / contribute as Python's binding rule dictates")
     ctx.exhaustive = True
-    ctx.assumptions = ["variables range over 1..3 (truthy values)", "parameters are ints; the body is (p1 + 2*p2 + 3*p3) % 3 != 0"]
+    ctx.assumptions = ["variables range over 0..2", "positional-only and var-positional signatures are only called concretely (symbolic calls re-pass arguments by name: outside the quantifier's (arity, defaults))", "parameters are ints; the body is (p1 + 2*p2 + 3*p3) % 3 != 0"]
     return ctx.finish()
